@@ -59,6 +59,10 @@ pub enum Ev {
     /// an interrupt was delivered at this point
     Deliver { vector: u8 },
     Wake,
+    /// HLT with IF=0 or with no interrupt left to arrive: the processor never wakes up
+    Hang,
+    /// harness marker inside the instruction stream (closure entry/exit etc.)
+    Mark(u32),
 }
 
 #[derive(Clone, Copy, Debug, PartialEq, Eq)]
@@ -186,6 +190,20 @@ pub struct Cpu {
     pub trace: Vec<Ev>,
     /// count of refused instructions in the current call
     pub faults: u32,
+    /// system bits of RFLAGS other than IF as last written (IOPL, NT, AC, ID ...)
+    pub rflags_sys: u64,
+    /// logical time: instruction boundaries seen by the simulator
+    pub boundary: u64,
+    /// address of the instruction in the STI shadow (no interrupt is taken before it)
+    pub shadow_rip: Option<u64>,
+    /// interrupts that will become pending: (boundary at which they arrive, vector)
+    pub irq_pending: Vec<(u64, u8)>,
+    /// (boundary, vector) of every delivered interrupt
+    pub delivered: Vec<(u64, u8)>,
+    pub hung: bool,
+    /// set by harness code while it edits `trace` / `irq_pending` itself: the handler must not
+    /// touch them at the same time (delivery is postponed by a few boundaries, which is legal)
+    pub hold_irqs: bool,
 }
 
 impl Default for Cpu {
@@ -216,6 +234,13 @@ impl Default for Cpu {
             cpuid: CpuidParams { invlpgb: false, invlpgb_max: 0, nested: false, nasid: 0 },
             trace: Vec::new(),
             faults: 0,
+            rflags_sys: 0,
+            boundary: 0,
+            shadow_rip: None,
+            irq_pending: Vec::new(),
+            delivered: Vec::new(),
+            hung: false,
+            hold_irqs: false,
         }
     }
 }
@@ -453,12 +478,69 @@ impl Cpu {
         self.iflag = false;
         self.sti_shadow = false;
     }
-    pub fn sti(&mut self) {
+    /// `next_rip` = address of the instruction following STI (the one in the shadow)
+    pub fn sti(&mut self, next_rip: u64) {
         self.trace.push(Ev::Sti);
         if !self.iflag {
             self.sti_shadow = true;
+            self.shadow_rip = Some(next_rip);
         }
         self.iflag = true;
+    }
+
+    /// An instruction boundary: the instruction at `rip` is about to execute.  Pending interrupts
+    /// are taken here if IF=1 and the boundary is not the one in the STI shadow.
+    pub fn at_boundary(&mut self, rip: u64) {
+        self.boundary += 1;
+        if self.shadow_rip == Some(rip) {
+            return;
+        }
+        self.shadow_rip = None;
+        self.sti_shadow = false;
+        if self.iflag && !self.hold_irqs {
+            self.take_pending();
+        }
+    }
+
+    fn take_pending(&mut self) {
+        let now = self.boundary;
+        let mut due: Vec<(u64, u8)> = self.irq_pending.iter().cloned().filter(|x| x.0 <= now).collect();
+        due.sort();
+        self.irq_pending.retain(|x| x.0 > now);
+        for (_, v) in due {
+            self.trace.push(Ev::Deliver { vector: v });
+            self.delivered.push((now, v));
+        }
+    }
+
+    /// HLT: sleep until the next interrupt is taken.  With IF=0, or with nothing left to arrive,
+    /// that never happens.
+    pub fn hlt(&mut self) {
+        self.trace.push(Ev::Hlt);
+        self.shadow_rip = None;
+        self.sti_shadow = false;
+        if !self.iflag || self.irq_pending.is_empty() {
+            self.hung = true;
+            self.trace.push(Ev::Hang);
+            return;
+        }
+        let first = self.irq_pending.iter().map(|x| x.0).min().unwrap();
+        if first > self.boundary {
+            self.boundary = first;
+        }
+        self.trace.push(Ev::Wake);
+        self.take_pending();
+    }
+
+    pub fn swapgs(&mut self) {
+        self.trace.push(Ev::Swapgs);
+        core::mem::swap(&mut self.gs_base, &mut self.kernel_gs_base);
+    }
+
+    /// full simulated RFLAGS given the native arithmetic bits
+    pub fn rflags_value(&self, native: u64) -> u64 {
+        const ARITH: u64 = 0x8d5 | 0x400;
+        (native & ARITH) | 2 | (self.rflags_sys & !ARITH & !0x200 & !0x100) | ((self.iflag as u64) << 9)
     }
 
     // ---- ports -----------------------------------------------------------------------------
